@@ -192,6 +192,7 @@ def install_bridge(ctx):
     mod.note = _note
     mod.canon = canon
     mod.sim_yield = _sim_yield  # (no closure over ctx: the module must not keep an old world alive)
+    mod.latch_set = _latch_set
     return mod
 
 
@@ -199,6 +200,10 @@ def _note(*a):
     """Called by generated remote source: record a plain-data note in the history."""
     ctx = sys.modules["vsim_bridge"].CTX
     ctx.rec(-5, 0, "note", tuple(a))
+
+
+def _latch_set(name):
+    sys.modules["vsim_bridge"].CTX.latch(name).set()
 
 
 def _sim_yield():
